@@ -88,7 +88,7 @@ func gatesAuth(s *Summary, c *gateCase) {
 		accounts[a[0]] = a[1]
 	}
 	for _, hv := range authHeaders(c) {
-		for posk := 0; posk < 14; posk++ { // the gate as global, group or route middleware; 3: behind a handler that has already written
+		for posk := 0; posk < 15; posk++ { // the gate as global, group or route middleware; 3: behind a handler that has already written
 			pos, preflight := posk%5, posk >= 5 && posk < 10 // preflight: the same as an OPTIONS request that looks like a CORS preflight
 			if posk >= 10 {
 				pos = posk - 5 // 5, 6: the gate behind an outer gate without account list / behind a middleware that stored a user name; 7, 8: see below
@@ -132,6 +132,21 @@ func gatesAuth(s *Summary, c *gateCase) {
 			case 8:
 				r.Use(mark("before"))
 				r.Group("/", func() { rux.NewRoute("/p", mark("main"), "GET", "OPTIONS").Use(mark("after")).AttachTo(r) }, auth)
+			case 9:
+				// two gates made by ONE helper (one call site), added with Use at two group levels: staff area, admin area inside it
+				mkGate := func(acc map[string]string) rux.HandlerFunc { return handlers.HTTPBasicAuth(acc) }
+				gates := []rux.HandlerFunc{}
+				for _, acc := range []map[string]string{nil, accounts} {
+					gates = append(gates, mkGate(acc))
+				}
+				r.Use(mark("before"))
+				r.Group("/", func() {
+					r.Use(gates[0])
+					r.Group("/", func() {
+						r.Use(gates[1])
+						r.Add("/p", mark("main"), "GET", "OPTIONS").Use(mark("after"))
+					})
+				})
 			case 4:
 				// the gate as route middleware inside a group whose chain was grown by single Use calls (spare capacity), with a
 				// sibling route that has middleware of its own registered after it
@@ -159,6 +174,10 @@ func gatesAuth(s *Summary, c *gateCase) {
 			if hv != "<none>" {
 				req.Header.Set("Authorization", hv)
 			}
+			if posk%3 == 1 { // a script on a page asks (XMLHttpRequest): the gate answers it like any other client
+				req.Header.Set("X-Requested-With", "XMLHttpRequest")
+				req.Header.Set("Accept", "application/json")
+			}
 			w := httptest.NewRecorder()
 			r.ServeHTTP(w, req)
 			s.Compared++
@@ -172,7 +191,7 @@ func gatesAuth(s *Summary, c *gateCase) {
 				s.mismatch(map[string]any{"kind": "gates", "aspect": "auth", "what": fmt.Sprintf(
 					"HTTPBasicAuth(accounts %v) as %s middleware, Authorization %q: status %d, handlers run %v, challenge=%v; the statement gives %s",
 					accounts, []string{"global", "group", "route", "global (after a handler that has written)", "route (in a group with three Use calls, before a sibling route)", "group (behind a global gate without account list)", "group (behind a middleware that stored the claimed user name)",
-						"group (the route is registered with Any and its own middleware)", "group (a prepared route object with its own middleware is attached)"}[pos]+map[bool]string{true: " (OPTIONS preflight)", false: ""}[preflight], hv, w.Code, ran, challenge, c.Expect)}, c)
+						"group (the route is registered with Any and its own middleware)", "group (a prepared route object with its own middleware is attached)", "inner group (two gates made by one helper, added with Use at two group levels)"}[pos]+map[bool]string{true: " (OPTIONS preflight)", false: ""}[preflight], hv, w.Code, ran, challenge, c.Expect)}, c)
 				return
 			}
 		}
@@ -259,6 +278,11 @@ func gatesWrap(s *Summary, c *gateCase) {
 		cx.Next()
 		seenStatus, seenLen = cx.StatusCode(), cx.Length()
 	})
+	// two more generic handlers, wrapped and registered in a loop (one call site for both): each of them takes part
+	for _, name := range []string{"loop1", "loop2"} {
+		name := name
+		r.Use(rux.WrapHTTPHandler(http.HandlerFunc(func(http.ResponseWriter, *http.Request) { log = append(log, "in:"+name) })))
+	}
 	r.GET("/w", func(cx *rux.Context) { log = append(log, "in:router") }, rux.WrapHTTPHandler(generic),
 		func(cx *rux.Context) { log = append(log, "in:native2") })
 	ws := []func(http.Handler) http.Handler{}
@@ -288,7 +312,7 @@ func gatesWrap(s *Summary, c *gateCase) {
 	want := []string{}
 	for _, n := range c.Order {
 		if n == "router" {
-			want = append(want, "in:native1", "in:generic", "in:native2", "in:router")
+			want = append(want, "in:native1", "in:loop1", "in:loop2", "in:generic", "in:native2", "in:router")
 		} else {
 			want = append(want, "in:"+n)
 		}
